@@ -46,7 +46,7 @@ CHECKS["C16"] = dict(category="exploration",
            "random lists of up to 12 ids (duplicates, illegal-character variants, shortened/deduplicated forms of other ids, versioned "
            "accessions, long contig numbers) are sampled; ids must be pairwise distinct, free of the documented illegal characters, "
            "<=16 characters unless long headers are allowed, with original_id remembered; gene names unique or the record rejected.",
-      note="Trusted: the illegal character set is the one documented in fix_record_name_id. cpus=1 (the parallel path is C18's).",
+      note="Trusted: the illegal character set is the one documented in fix_record_name_id. The id clauses are also judged with 2-4 CPUs through the real pre_process_sequences (parallel subchecks).",
       design="3/C16")
 CHECKS["C20"] = dict(category="fault_enumeration",
       technique="exhaustive fault enumeration (records x modules x fault position x 16 fault kinds x target) and exhaustive directory-content subsets, plus Hypothesis multi-fault/random-tree cases, oracle = bytes/listing unchanged and error raised",
